@@ -125,15 +125,15 @@ func C08(c *Ctx) {
 						return aTwo, true
 					}
 				}
-				if b, ok := v.(*ssa.BinOp); ok && (b.Op == token.EQL || b.Op == token.NEQ) {
-					x, y := b.X, b.Y
+				if rel := Normalize(v, true); rel.Op == token.EQL || rel.Op == token.NEQ {
+					x, y := rel.X, rel.Y
 					for k := 0; k < 2; k++ {
-						if x == errV {
+						if flowsTo(errV, x, 0) {
 							if IsNilConst(y) {
-								return (ek == "nil") == (b.Op == token.EQL), true
+								return (ek == "nil") == (rel.Op == token.EQL), true
 							}
 							if g := loadOfGlobal(y); g != nil && globalName(g) == "ab.ErrUserNotFound" {
-								return (ek == "notfound") == (b.Op == token.EQL), true
+								return (ek == "notfound") == (rel.Op == token.EQL), true
 							}
 						}
 						x, y = y, x
